@@ -4,7 +4,7 @@ import inspect
 from abc import ABC, abstractmethod
 from typing import Callable, Iterable, NamedTuple
 
-from ..engine import Edge, FunctionEdge, ImpureEdge
+from ..engine import ComputableHashBase, Edge, FunctionEdge, ImpureEdge
 from ..exceptions import FieldError
 from .decorators import RuntimeAnnotation
 from .nodes import *
@@ -218,6 +218,9 @@ class Positional(FunctionWrapper):
 
 class Impure(FunctionWrapper):
     def _wrap(self, edge: Edge, inputs: NodeTypes, output: NodeType) -> Iterable[TypedEdge]:
+        # an impure edge is already hashed by value, so there is no need to nest such wrappers
+        if isinstance(edge, ComputableHashBase):
+            edge = edge.edge
         yield TypedEdge(ImpureEdge(edge), inputs, output)
 
 
